@@ -143,12 +143,22 @@ pub fn run(prop: &str, seed: u64, n: usize, outdir: &str) -> std::io::Result<()>
                 let preds = |sn: usize| -> Vec<usize> { if sn == 0 { vec![0] } else { ends.get(sn).map(|v| v.iter().map(|x| x[5] as usize).collect()).unwrap_or_default() } };
                 for v in ends.iter().skip(1) { for nd in v { for pr in preds(nd[0] as usize) { if let Some(x) = el.get_mut(nd[4] as usize) { *x += 1; } if let Some(x) = er.get_mut(pr) { *x += 1; } } } }
                 if let Some(e) = eos { for pr in preds(e[0] as usize) { el[0] += 1; if let Some(x) = er.get_mut(pr) { *x += 1; } } }
+                // the statistics are ordered by count (descending), ties by id, and each value is count / total
+                let (lp, rp) = w.compute_connid_probs();
+                let order_ok = |probs: &Vec<(usize, f64)>, cnt: &Vec<usize>| -> bool {
+                    let total: usize = cnt.iter().sum();
+                    let mut exp: Vec<usize> = (1..cnt.len()).collect();
+                    exp.sort_by(|a, b| cnt[*b].cmp(&cnt[*a]).then(a.cmp(b)));
+                    probs.iter().map(|x| x.0).collect::<Vec<_>>() == exp
+                        && probs.iter().all(|x| (x.1 - cnt[x.0] as f64 / total as f64).abs() == 0.0 || total == 0)
+                };
+                let ordered = order_ok(&lp, &lc) && order_ok(&rp, &rc);
                 let tk = toks(&w);
                 let tokens_are_nodes = tk.iter().all(|x| ends.get(x.1).map_or(false, |v| v.iter().any(|nd| nd[0] as usize <= x.0 && nd[1] as usize == x.0 && nd[4] as u16 == x.5 && nd[5] as u16 == x.6)));
-                (el == lc && er == rc, tokens_are_nodes, !tk.is_empty())
+                (el == lc && er == rc, tokens_are_nodes, !tk.is_empty(), ordered)
             }));
             match r {
-                Ok((same, nodes, nonempty)) => { flags.push(("c13_counts_are_the_evaluations_of_the_lattice".into(), same as u8)); flags.push(("c13_tokens_are_nodes_of_the_counted_lattice".into(), (nodes && nonempty) as u8)); }
+                Ok((same, nodes, nonempty, ordered)) => { flags.push(("c13_statistics_ordered_by_count_then_id".into(), ordered as u8)); flags.push(("c13_counts_are_the_evaluations_of_the_lattice".into(), same as u8)); flags.push(("c13_tokens_are_nodes_of_the_counted_lattice".into(), (nodes && nonempty) as u8)); }
                 Err(_) => flags.push(("c13_no_panic".into(), 0)),
             }
         }
